@@ -55,6 +55,13 @@ type txPoolWorker struct {
 	pendingTxList map[common.Uint256]*pendingTx // The transaction on the verifying process
 }
 
+// pendingLen returns the number of transactions on the verifying process
+func (worker *txPoolWorker) pendingLen() int {
+	worker.mu.RLock()
+	defer worker.mu.RUnlock()
+	return len(worker.pendingTxList)
+}
+
 // init initializes the worker with the configured settings
 func (worker *txPoolWorker) init(workID uint8, s *TXPoolServer) {
 	worker.rcvTXCh = make(chan *tx.Transaction, tc.MAX_PENDING_TXN)
